@@ -57,3 +57,12 @@ verus! {
 pub assume_specification<T: Clone>[ <[T]>::to_vec ](s: &[T]) -> (r: Vec<T>)
     ensures r@ == s@;
 }
+
+verus! {
+/// `Composer` is opaque to Verus (it contains a hashbrown map whose allocator bound cannot be named):
+/// three ghost views, related to the real fields only by the ASSUMED contracts of the leaf methods
+/// `append_witness_internal`, `append_custom_gate_internal`, `Index<Witness>`, `constraints`.
+#[verifier::external_type_specification]
+#[verifier::external_body]
+pub struct ExComposer(crate::composer::Composer);
+}
